@@ -20,6 +20,7 @@ import RbpfModel.Lemmas.X86Sim.EntryC
 import RbpfModel.Lemmas.X86Sim.EntryFixed
 import RbpfModel.Lemmas.X86Enc.Layout
 import RbpfModel.Lemmas.X86Enc.Targets
+import RbpfModel.Lemmas.X86Enc.Size
 import RbpfModel.Props.C03
 namespace Rbpf
 open Rbpf.JitSim Rbpf.JitEnc
@@ -97,7 +98,7 @@ theorem C03_x86_accepted (env : Env) (haddr : Nat → Option Nat) (um : Bool) (c
     (m : Memory) (σ : X86.St) (fuel : Nat) (r0 : BitVec 64) (s' : State)
     (hacc : Verifier.check env.prog = .ok)
     (hcomp : JitEmit.compileWithLayout env.prog haddr um false = .ok (c.code, locs, ex))
-    (hh : ∀ k a, haddr k = some a → a < 2 ^ 64) (hsz : c.code.size < 2 ^ 31)
+    (hh : ∀ k a, haddr k = some a → a < 2 ^ 64)
     (hcov : Covered env.prog) (hl : NoLocalCall env.prog) (h7 : NoF7 env.prog)
     (hbase : c.codeBase + c.code.size < 2 ^ 63)
     (hsent : c.retSentinel.toNat < c.codeBase ∨ c.codeBase + c.code.size ≤ c.retSentinel.toNat)
@@ -109,7 +110,7 @@ theorem C03_x86_accepted (env : Env) (haddr : Nat → Option Nat) (um : Bool) (c
       σ'.get 3 = σ.get 3 ∧ σ'.get 5 = σ.get 5 ∧ σ'.get 13 = σ.get 13 ∧ σ'.get 14 = σ.get 14 ∧ σ'.get 15 = σ.get 15 ∧
       (σ'.get X86.RSP).toNat = (σ.get X86.RSP).toNat + 8 :=
   have ht := targetsOk_of_check env.prog haddr hacc
-  C03_x86 env haddr um c locs ex m σ fuel r0 s' hcomp hh ht.1 ht.2 hsz hcov hl h7 hbase hsent he hpkt hum hindep hint
+  C03_x86 env haddr um c locs ex m σ fuel r0 s' hcomp hh ht.1 ht.2 (compile_size_lt _ _ _ _ _ _ _ hcomp ht.2) hcov hl h7 hbase hsent he hpkt hum hindep hint
 
 /-- C12 at the level of machine code: what the emitter model writes for an accepted program is, byte for byte, a
     prologue, one well-formed x86-64 instruction sequence per eBPF instruction — each the one `JitAst.arm` prescribes,
@@ -118,10 +119,11 @@ theorem C03_x86_accepted (env : Env) (haddr : Nat → Option Nat) (um : Bool) (c
 theorem C12_code_wellformed (p : Bytes) (haddr : Nat → Option Nat) (um ud : Bool) (code : Array UInt8) (locs : Array Nat) (ex : Nat)
     (hacc : Verifier.check p = .ok)
     (hcomp : JitEmit.compileWithLayout p haddr um ud = .ok (code, locs, ex))
-    (hh : ∀ k a, haddr k = some a → a < 2 ^ 64) (hsz : code.size < 2 ^ 31) :
-    JitAst.validate p haddr um ud code { pcLocs := locs, exitLoc := ex } = true :=
+    (hh : ∀ k a, haddr k = some a → a < 2 ^ 64) :
+    JitAst.validate p haddr um ud code { pcLocs := locs, exitLoc := ex } = true ∧ code.size < 2 ^ 31 :=
   have ht := targetsOk_of_check p haddr hacc
-  compile_validates_partial p haddr um ud code locs ex hcomp hh ht.1 hsz ht.2
+  have hs := compile_size_lt p haddr um ud code locs ex hcomp ht.2
+  ⟨compile_validates_partial p haddr um ud code locs ex hcomp hh ht.1 hs ht.2, hs⟩
 
 /-- C03's exclusions "results that depend on a never-written register, or on r1 … r5 after a helper call", stated
     semantically: whatever r0, r2 … r9 hold at entry and whatever each helper call leaves in r1 … r5 (`clob`), the run
@@ -143,7 +145,7 @@ theorem C03_x86_calls (env : Env) (haddr : Nat → Option Nat) (um : Bool) (c : 
     (m : Memory) (σ : X86.St) (fuel : Nat) (r0 : BitVec 64) (s' : State)
     (hacc : Verifier.check env.prog = .ok)
     (hcomp : JitEmit.compileWithLayout env.prog haddr um false = .ok (c.code, locs, ex))
-    (hext : ExtOk c env haddr) (hsz : c.code.size < 2 ^ 31)
+    (hext : ExtOk c env haddr)
     (hcov : CoveredC env.prog) (hl : NoLocalCall env.prog) (h7 : NoF7 env.prog)
     (hbase : c.codeBase + c.code.size < 2 ^ 63)
     (hsent : c.retSentinel.toNat < c.codeBase ∨ c.codeBase + c.code.size ≤ c.retSentinel.toNat)
@@ -172,7 +174,7 @@ theorem C03_x86_calls (env : Env) (haddr : Nat → Option Nat) (um : Bool) (c : 
   obtain ⟨h1, h10⟩ := entryState_r1_r10 c m σ um he hpkt hum
   obtain ⟨b, hjb, hbm, hbl⟩ := hindep c.clobber (entryState m σ um) rfl rfl rfl rfl h1 h10 r0 a hja
   have ht := targetsOk_of_check env.prog haddr hacc
-  have hv := compile_validates_partial env.prog haddr um false c.code locs ex hcomp hext.2 ht.1 hsz ht.2
+  have hv := compile_validates_partial env.prog haddr um false c.code locs ex hcomp hext.2 ht.1 (compile_size_lt _ _ _ _ _ _ _ hcomp ht.2) ht.2
   obtain ⟨k, σ', hrun, hmem, h3, h5, h13, h14, h15, hrsp, hlg, hmis⟩ :=
     jit_call_to_returnC env haddr um c { pcLocs := locs, exitLoc := ex } m σ fuel r0 b hv hcov hext hbase hsent he hlog halign hjb
   refine ⟨k, σ', hrun, ?_, h3, h5, h13, h14, h15, hrsp, ?_, hmis⟩
@@ -190,7 +192,7 @@ theorem C03_x86_fixed (env : Env) (haddr : Nat → Option Nat) (c : X86.Cfg) (lo
     (m : Memory) (d e : Nat) (σ : X86.St) (fuel : Nat) (r0 : BitVec 64) (s' : State)
     (hacc : Verifier.check env.prog = .ok)
     (hcomp : JitEmit.compileWithLayout env.prog haddr true true = .ok (c.code, locs, ex))
-    (hext : ExtOk c env haddr) (hsz : c.code.size < 2 ^ 31)
+    (hext : ExtOk c env haddr)
     (hcov : CoveredC env.prog) (hl : NoLocalCall env.prog) (h7 : NoF7 env.prog)
     (hbase : c.codeBase + c.code.size < 2 ^ 63)
     (hsent : c.retSentinel.toNat < c.codeBase ∨ c.codeBase + c.code.size ≤ c.retSentinel.toNat)
@@ -220,7 +222,7 @@ theorem C03_x86_fixed (env : Env) (haddr : Nat → Option Nat) (c : X86.Cfg) (lo
   obtain ⟨b, hjb, hbm, hbl⟩ := hindep c.clobber (entryStateFixed m σ d e) (by simp only [entryStateFixed, Interp.init])
     (by simp only [entryStateFixed, Interp.init]) hmemeq (by simp only [entryStateFixed, Interp.init]) h1 h10 r0 a hja
   have ht := targetsOk_of_check env.prog haddr hacc
-  have hv := compile_validates_partial env.prog haddr true true c.code locs ex hcomp hext.2 ht.1 hsz ht.2
+  have hv := compile_validates_partial env.prog haddr true true c.code locs ex hcomp hext.2 ht.1 (compile_size_lt _ _ _ _ _ _ _ hcomp ht.2) ht.2
   obtain ⟨k, σ', hrun, hmem, h3, h5, h13, h14, h15, hrsp, hlg, hmis⟩ :=
     jit_call_to_return_fixed env haddr c { pcLocs := locs, exitLoc := ex } m d e σ fuel r0 b hv hcov hext hbase hsent he hlog halign hjb
   refine ⟨k, σ', hrun, ?_, h3, h5, h13, h14, h15, hrsp, ?_, hmis⟩
